@@ -50,6 +50,8 @@ def run(chk):
     chk.trust('the generator is only as complete as spec/tables_* and the seeds in vf/objgen.py', 'spec/accepted_variants.json (frozen list of generator variants the library accepted when the model was frozen)')
     lexical_part(chk, 'C03')
     cs = [K.validate_type_contract(), K.integer_clean_contract(), K.integer_clean_contract('bool'), KP.dict_to_stix2_contract()] + [K.order_contract(*row) for row in K.ORDER_TABLE]
+    cs += [K.hashes_clean_contract(), K.list_clean_contract(), K.reference_clean_contract(), K.enum_clean_contract(), K.hex_clean_contract(), K.dictionary_clean_contract(), K.float_clean_contract(),
+           K.observable_clean_contract(), K.extensions_clean_contract()]        # acceptance of valid values rests on every cleaner
     cs += [KP.init_prefix_contract(), KM.validate_contract(), KM.validate_selector_contract(), KM.evaluate_expression_contract()]        # granular markings on every existing path are accepted
     for c in cs:
         chk.prove(c); chk.canary(c)
